@@ -10,6 +10,7 @@ import TFV.Properties.Src.Skeleton
 #print axioms TFV.SrcTie.C03_src_termination_stop
 #print axioms TFV.SrcTie.C03_src_termination_stop_no_stagnation_rule
 #print axioms TFV.SrcTie.C03_src_get_remains_calls
+#print axioms TFV.SrcTie.C03_src_get_fitness_counts
 #print axioms TFV.SrcTie.C03_src_fit
 #print axioms TFV.SrcTie.C03_src_fit_stops_at_first
 #print axioms TFV.SrcTie.C03_src_fit_full
